@@ -1,7 +1,8 @@
 (* modelrun command "fmt" (property C16): the printer / lexer / parser models against the real
    formatter round trip.  Case format: see harness/src/cmd_fmt.rs.
 
-   Per program:     (0) model lexer + parser on the source text  =  parse_module(text)   (accept/reject and tree)
+   Per program:     (0) model lexer + parser on the source text  =  parse_module(text)   (accept/reject and tree);
+                        the parsed tree satisfies wf_prog, the "parser shaped" hypothesis of the theorems
    Per configuration (width, indent, allow_linebreaks, omit_decl_sep):
      (i)   tokens (d_prog cfg p1)  =  lex (real t2)             model printer (token level) and lexer
      (i')  render cfg (d_prog cfg p1) = real t2                 model printer (layout level), see Model/Pretty.v
@@ -16,6 +17,7 @@
            so the class is neither too wide nor too narrow on the inputs of the run. *)
 From Coq Require Import List ZArith NArith String Ascii Bool.
 From SCC Require Import Base.Sexp Lang.SynUtil Lang.FunSyn Model.Printer Model.Parser Model.Pretty Model.FmtClass Model.RunBase.
+From SCC Require Import Proof.FmtDefs.   (* definitions only: wf_prog, the hypothesis "parser shaped" of the theorems *)
 Import ListNotations.
 Open Scope string_scope.
 
@@ -215,8 +217,11 @@ Definition fmt_case (i r : sexp) : list (string * string) :=
                         | Some q => if fprog_eqb q p1 then [("OK", "nt source-agree")]
                                     else [("DIFF", "model=other-tree rust=p1 source " ++ oneline text)]
                         end in
+              let l0 := if wf_prog p1 then l0
+                        else (("DIFF", "model=not-parser-shaped(wf_prog) rust=parsed source " ++ oneline text) :: l0) in
+              let feats := feat_prog p1 ++ (if zsafe_prog p1 then " thm-hyps" else " defect-class") in
               match r with
-              | L cfgs => (l0 ++ cfgs_lines p1 (feat_prog p1) [] cfgs)%list
+              | L cfgs => (l0 ++ cfgs_lines p1 feats [] cfgs)%list
               | _ => (l0 ++ [("BAD", "configurations")])%list
               end
           end
